@@ -160,66 +160,32 @@ def B1_B2_counts(rep, flow: Flow, want=("B1", "B2")):
     if "B2" in want:
         rep.rule("B2", "marginalisation: the character selected for list position j is the bit of register qubit qubits[j], and after int(.,2) list position j has significance 2^j", floor=1)
     f = flow.prog.func(A_COUNTS_PARSER)
-    params = f.params
-    counts = [a.arg for a in f.node.args.args if a.annotation is not None and "Dict" in ast.unparse(a.annotation)] or [p for p in params if p == "counts"]
-    lists = [a.arg for a in f.node.args.args if a.annotation is not None and "Sequence" in ast.unparse(a.annotation) or a.arg == "qubits"]
+    counts = [a.arg for a in f.node.args.args if a.annotation is not None and "Dict" in ast.unparse(a.annotation)] or [p for p in f.params if p == "counts"]
+    lists = [a.arg for a in f.node.args.args if (a.annotation is not None and "Sequence" in ast.unparse(a.annotation)) or a.arg == "qubits"]
     if not counts or not lists:
         raise AnalysisError(f"{A_COUNTS_PARSER}: cannot identify the counts / qubit-list parameters")
     lp = lists[0]
-    sinks = []
-
-    def on_sink(sq, c):
-        if isinstance(c, ast.Call) and isinstance(c.func, ast.Name):
-            r = flow.prog.lookup_global(f.module, c.func.id)
-            if r and r[0] == "class":
-                init = flow.prog.find_method(r[1], "__init__")
-                if init and "bitstring" in init.params:
-                    arg = c.args[0] if c.args else next((k.value for k in c.keywords if k.arg == "bitstring"), None)
-                    if arg is not None:
-                        sinks.append((c, sq.q(arg), dict(sq.env)))
-
-    def walk(stmts, env, branch):
-        for st in stmts:
-            t = _is_none_test(st.test, lp) if isinstance(st, ast.If) else None
-            if t:
-                full, sub = (st.body, st.orelse) if t == "is" else (st.orelse, st.body)
-                for blk, br in ((full, "full"), (sub, "subset")):
-                    sq = bitorder.StrQual(f, {"__counts__": tuple(counts)}, [lp])
-                    n0 = len(sinks)
-                    sq.run(blk, on_sink)
-                    for (c, q, _) in sinks[n0:]:
-                        judge(c, q, br)
-                    for (rule, node, msg) in sq.problems:
-                        rid = "B2" if br == "subset" else "B1"
-                        if rid in rep.rules:
-                            rep.finding(rid, f"{A_COUNTS_PARSER}:{br}:select", f"{pyfacts.where(f, node)}: {msg} [{pyfacts.norm_stmt(node)}]")
-            elif isinstance(st, (ast.For, ast.If, ast.While)):
-                walk(st.body, env, branch)
-                walk(getattr(st, "orelse", []), env, branch)
-
-    seen = {"full": 0, "subset": 0}
-
-    def judge(c, q, br):
-        rid = "B1" if br == "full" else "B2"
+    for br, rid, assume_none in (("full", "B1", True), ("subset", "B2", False)):
         if rid not in rep.rules:
-            return
-        seen[br] += 1
-        if q is None:
-            raise AnalysisError(f"{pyfacts.where(f, c)}: bit order of the stored outcome is outside the qualifier algebra [{pyfacts.norm_stmt(c)}]")
-        want_reg = "register" if br == "full" else lp
-        if br == "subset" and q[0] in ("ILE", "IBE") and q[1] == ("sorted", lp):
-            rep.finding(rid, f"{A_COUNTS_PARSER}:{br}:sorted", f"{pyfacts.where(f, c)}: the stored outcome comes from marginal_counts(), which orders the selected bits by ascending qubit index: bit j is the j-th SMALLEST listed qubit, not list position j; the readout was composed in the caller's order [{pyfacts.norm_stmt(c)}]")
-            return
-        if q[0] == "ILE" and q[1] == want_reg and (len(q) < 3 or q[2] == "ok"):
-            rep.ok(rid, 1, nontrivial=(br, pyfacts.norm_stmt(c)), sample=f"{br} path: stored outcome is little-endian over {want_reg} [{pyfacts.norm_stmt(c)[:80]}]")
-        elif q[0] == "ILE" and len(q) == 3 and q[2] == "mirror":
-            pass  # the selection problem is already reported
-        else:
-            rep.finding(rid, f"{A_COUNTS_PARSER}:{br}:significance", f"{pyfacts.where(f, c)}: the stored outcome integer is {'big' if q[0]=='IBE' else '?'}-endian over {q[1]} (position j gets significance 2^(m-1-j)); every consumer assumes bit j = {('qubit j' if br=='full' else 'list position j')} [{pyfacts.norm_stmt(c)}]")
-
-    walk(f.node.body, {}, None)
-    if "B1" in rep.rules and seen["full"] == 0 or "B2" in rep.rules and seen["subset"] == 0:
-        raise AnalysisError(f"{A_COUNTS_PARSER}: no outcome sink found on the {'full' if seen['full']==0 else 'subset'} path (anchor vanished)")
+            continue
+        ev = bitorder.QualEval(flow.prog, counts, lp, assume_none)
+        ev.run_function(f, {}, {lp})
+        if not ev.sinks:
+            raise AnalysisError(f"{A_COUNTS_PARSER}: no outcome record is constructed on the {br} path (anchor vanished)")
+        for (g, node, msg) in ev.problems:
+            rep.finding(rid, f"{A_COUNTS_PARSER}:{br}:select", f"{pyfacts.where(g, node)}: {msg} [{pyfacts.norm_stmt(node)}]")
+        for (g, c, q) in ev.sinks:
+            if q is None:
+                raise AnalysisError(f"{pyfacts.where(g, c)}: bit order of the stored outcome is outside the qualifier algebra on the {br} path [{pyfacts.norm_stmt(c)}]")
+            want_reg = "register" if br == "full" else lp
+            if br == "subset" and q[0] in ("ILE", "IBE") and q[1] == ("sorted", lp):
+                rep.finding(rid, f"{A_COUNTS_PARSER}:{br}:sorted", f"{pyfacts.where(g, c)}: the stored outcome comes from marginal_counts(), which orders the selected bits by ascending qubit index: bit j is the j-th SMALLEST listed qubit, not list position j; the readout was composed in the caller's order [{pyfacts.norm_stmt(c)}]")
+            elif q[0] == "ILE" and q[1] == want_reg and (len(q) < 3 or q[2] == "ok"):
+                rep.ok(rid, 1, nontrivial=(br, pyfacts.norm_stmt(c)), sample=f"{br} path: stored outcome is little-endian over {want_reg} [{pyfacts.norm_stmt(c)[:80]}]")
+            elif q[0] == "ILE" and len(q) == 3 and q[2] == "mirror":
+                pass    # the selection problem is already reported
+            else:
+                rep.finding(rid, f"{A_COUNTS_PARSER}:{br}:significance", f"{pyfacts.where(g, c)}: the stored outcome integer is {'big' if q[0] == 'IBE' else '?'}-endian over {q[1]} (position j gets significance 2^(m-1-j)); every consumer assumes bit j = {('qubit j' if br == 'full' else 'list position j')} [{pyfacts.norm_stmt(c)}]")
     if "B1" in rep.rules:
         B1_zmask(rep, flow)
 
